@@ -95,3 +95,20 @@ V('C02', 'renamed-children-keep-module', 'edb/schema/delta.py', 'edb.schema.delt
   '                    module=self.new_name.module,\n', '                    module=ref_name.module,\n', 'C02.R6', 'children-follow-module')
 V('C02', 'unions-refreshed-only-with-pointer-subcommands', 'edb/schema/objtypes.py', 'edb.schema.objtypes.AlterObjectType._alter_finalize',
   '        if not context.canonical:\n', '        if (\n            not context.canonical\n            and self.get_subcommands(metaclass=pointers.Pointer)\n        ):\n', 'C02.R6', 'unions-refreshed')
+
+# round 4
+V('C02', 'propagation-stops-at-children', 'edb/schema/referencing.py',
+  'edb.schema.referencing.ReferencedInheritingObjectCommand._propagate_ref_op',
+  'for descendant in scls.ordered_descendants(schema):',
+  'for descendant in scls.children(schema):', 'C02.R7',
+  'tagged-propagation-reaches-all-descendants')
+V('C02', 'enum-rebase-only-when-label-set-differs', 'edb/schema/scalars.py',
+  'edb.schema.scalars.ScalarType.as_alter_delta',
+  'if old_enum_values and enum_values:',
+  'if old_enum_values and enum_values and set(old_enum_values) != set(enum_values):',
+  'C02.R7', 'enum-order-counts')
+V('C02', 'excluded-modules-by-string-prefix', 'edb/schema/schema.py',
+  'edb.schema.schema.SchemaIterator.__init__',
+  'or obj.get_name(schema).get_module_name() not in excmod',
+  'or not str(obj.get_name(schema).get_module_name()).startswith(tuple(str(m) for m in excmod))',
+  'C02.R7', 'module-filter')
